@@ -303,7 +303,13 @@ def _call_model(fr, m, X, *args):
     for t in ts[1:]:
         # the assumed contract only speaks about equal leading dimensions
         L.require_eq(ctx, X.shape[0], t.shape[0], 'RuntimeError')
-    return rw.package(rw.apply_rows(ts))
+    if m.attrs.get('may_raise') and ctx.choose(2) == 0:
+        # the forward pass of a user model may fail at any call (C07: any crash point)
+        ctx.events.append(('model_forward_raises',))
+        raise SymRaise('RuntimeError', site='model-forward')
+    outs = rw.apply_rows(ts)
+    ctx.ghost['last_model_call'] = {'model': m, 'inputs': ts, 'outs': outs, 'hooks': ctx.ghost.get('dls_hooks', False)}
+    return rw.package(outs)
 
 
 @L.method('model.to')
@@ -315,6 +321,113 @@ def _model_to(fr, m, *a, **k):
 def _model_eval(fr, m):
     m.attrs['training'] = False
     return m
+
+
+@L.method('model.modules')
+def _model_modules(fr, m):
+    """the sub-modules of a model: an unknown number (>= 1) of objects carrying scratch attributes"""
+    n = m.attrs.get('n_modules')
+    if n is None:
+        n = O.fresh_int('n_modules')
+        fr.ctx.assume(n >= 1)
+        m.attrs['n_modules'] = n
+    return Iter(n, lambda i: Opaque('module', 'nn_module', {}))
+
+
+@L.method('model.apply')
+def _model_apply(fr, m, fn):
+    """model.apply(_register_hooks) / model.apply(_clear_hooks) of tangermeme.deep_lift_shap: ghost
+    state `dls_hooks` = the DeepLIFT forward/backward hooks may be registered on the model.  Registration
+    may fail half-way (C07); clearing is assumed total (handle.remove() does not raise)."""
+    ctx = fr.ctx
+    q = getattr(fn, 'qualname', None)
+    if q == 'tangermeme.deep_lift_shap._register_hooks':
+        ctx.ghost['dls_hooks'] = True
+        ctx.events.append(('hooks_registered',))
+        if m.attrs.get('may_raise') and ctx.choose(2) == 0:
+            raise SymRaise('RuntimeError', site='register-hooks')
+        return m
+    if q == 'tangermeme.deep_lift_shap._clear_hooks':
+        ctx.ghost['dls_hooks'] = False
+        ctx.events.append(('hooks_cleared',))
+        return m
+    raise Unsupported("model.apply(%r)" % (fn,))
+
+
+@L.lib('torch.autograd.grad')
+def _autograd_grad(fr, out, inp, *a, **k):
+    """ASSUMED contract of autograd + the DeepLIFT hooks for a row-wise model (DESIGN 10, C04-C06):
+    if `out` is sum_r model(X_, *args_)[r, target] of the last forward pass, X_ = [inp; R] (h rows
+    each), the args doubled likewise, and the hooks are registered, then the gradient with respect to
+    row r of `inp` is a function DLGRAD of (inp[r], R[r], args[r], target) only."""
+    ctx = fr.ctx
+    last = ctx.ghost.get('last_model_call')
+    if last is None or not isinstance(inp, Tn) or inp.rank < 2:
+        raise Unsupported("autograd.grad outside the modelled DeepLIFT pattern")
+    if not ctx.ghost.get('grad_enabled'):
+        raise SymRaise('RuntimeError', site='autograd.grad')
+    m = last['model']
+    rw = m.attrs['rowwise']
+    if rw.k is not None or len(rw.trailing[0]) != 1:
+        raise Unsupported("autograd.grad: model output is not (batch, n_targets)")
+    Xc, outs = last['inputs'][0], last['outs'][0]
+    h = inp.shape[0]
+    if Xc.rank != inp.rank:
+        raise Unsupported("autograd.grad: rank mismatch")
+    # the scalar must be the sum over the whole batch of one output column: find the column
+    o = L.unwrap_scalar(out)
+    T = rw.trailing[0][0]
+    tcol = ctx.ghost.get('dls_target')
+    if tcol is None:
+        raise Unsupported("autograd.grad: target column not declared by the contract")
+    expect = L.Sum(0, Xc.shape[0], lambda r: outs.elem(r, tcol), 'real')
+    ctx.oblige('autograd:scalar-is-batch-sum-of-target-column', O.smart_eq(O.to_z3(o), O.to_z3(expect)), 'assumed-pattern')
+    ctx.oblige('autograd:batch-is-[examples;references]',
+               And(O.eq(Xc.shape[0], 2 * h), O.forall(list(inp.shape), lambda *i: O.eq(Xc.elem(*i), inp.elem(*i)))), 'assumed-pattern')
+    ctx.oblige('autograd:hooks-registered', ctx.ghost.get('dls_hooks', False) is True, 'ghost')
+    if m.attrs.get('may_raise') and ctx.choose(2) == 0:
+        ctx.events.append(('backward_raises',))
+        raise SymRaise('RuntimeError', site='backward')
+    halves = []
+    for t in last['inputs']:
+        parts = getattr(t, 'cat_parts', None)
+        if parts is not None and len(parts) == 2 and ctx.entails(O.eq(parts[0][1], h)) and ctx.entails(O.eq(parts[1][1], h)):
+            # the batch was built as cat([a, b]) with h rows each: its halves are a and b themselves
+            halves.append(parts[0][0])
+            halves.append(parts[1][0])
+            continue
+        snap = t.snapshot()
+        halves.append(Tn.fresh([h] + list(t.shape[1:]), snap, t.kind, lib=t.lib))
+        halves.append(Tn.fresh([h] + list(t.shape[1:]), (lambda *i, _s=snap: _s(i[0] + h, *i[1:])), t.kind, lib=t.lib))
+    ctx.trusted.add('assumed: torch.autograd.grad of the batch-summed target column with the DeepLIFT hooks registered is, per example '
+                    'row, a function of that row, its paired reference row (row + h), their extra arguments and the target')
+    return (dl_grad(m, halves, tcol, list(inp.shape)),)
+
+
+def dl_grad(m, ins, tcol, shape):
+    """the assumed per-pair DeepLIFT multiplier function: rows of `ins` = (example row, reference row,
+    then every extra argument's row for the example half and for the reference half), target column"""
+    rw = m.attrs['rowwise']
+    h = shape[0]
+    if rw.recording:
+        # the recording model is linear in its inputs: its multipliers are its weights
+        from .models import wgt
+        import itertools as _it
+        dims = [O.conc_int(d) for d in shape[1:]]
+
+        def content(r, *idx):
+            out_ = 0
+            for q, jj in enumerate(_it.product(*[range(d) for d in dims])):
+                hit = And(*[O.eq(a_, b_) for a_, b_ in zip(idx, jj)])
+                if hit is True:
+                    return wgt(0, 0, q)
+                if hit is not False:
+                    out_ = ite(hit, wgt(0, 0, q), out_)
+            return out_
+        return Tn.fresh(list(shape), content, 'real')
+    tgt = Tn.fresh([h], lambda r: tcol, 'int')
+    g = RowWise('DLGRAD.' + rw.name, None, 'tuple', [list(shape[1:])])
+    return g.apply_rows(list(ins) + [tgt])[0]
 
 
 @L.method('model.parameters')
@@ -370,6 +483,7 @@ def shuffle_fn_result(f, X, n, start=None, end=None, seed=None):
     alphabet, length) that is a function of its arguments (X, start, end, n, random_state).
     Recording mode (small scope / concrete): shuffle j of example b = X[b] rolled right by j+1
     positions, as vf.models.RecordingShuffle."""
+    start, end, n, seed = [L.unwrap_scalar(x) if isinstance(x, Tn) else x for x in (start, end, n, seed)]
     if f.attrs.get('recording'):
         Lc = O.conc_int(X.shape[2])
         snap = X.snapshot()
@@ -391,6 +505,11 @@ def _call_shuffle_fn(fr, f, X, start=None, end=None, n=None, random_state=None, 
     if not isinstance(X, Tn) or X.rank != 3:
         raise Unsupported("shuffle_fn on a non rank-3 tensor")
     fr.ctx.events.append(('shuffle_fn_call',))
+    if random_state is None:
+        fr.ctx.events.append(('unseeded_random_source', 'shuffle_fn(random_state=None)'))
+        random_state = O.fresh_int('unseeded_tape')
+    if f.attrs.get('may_raise') and fr.ctx.choose(2) == 0:
+        raise SymRaise('ValueError', site='reference-generator')
     return shuffle_fn_result(f, X, n, start, end, random_state)
 
 
